@@ -275,22 +275,19 @@ func (codecHTTPBody) Unmarshal(data []byte, v interface{}) error {
 func (codecHTTPBody) Name() string { return "body" }
 
 func (codecHTTPBody) ReadNext(b []byte, r io.Reader, limit int) ([]byte, int, error) {
-	var total int
-	for {
+	// Bytes carried over in b count towards the chunk.
+	for len(b) < limit {
 		if len(b) == cap(b) {
 			// Add more capacity (let append pick how much).
 			b = append(b, 0)[:len(b)]
 		}
 		n, err := r.Read(b[len(b):cap(b)])
 		b = b[:len(b)+n]
-		total += int(n)
-		if total > limit {
-			total = limit
-		}
-		if err != nil || total == limit {
-			return b, total, err
+		if err != nil && len(b) <= limit {
+			return b, len(b), err
 		}
 	}
+	return b, limit, nil
 }
 
 func (codecHTTPBody) WriteNext(w io.Writer, b []byte) (int, error) {
